@@ -80,7 +80,7 @@ class EntryPoint(Harness):
         groups = self.groups(obs)
         if self.entry == "discover" and self.family:
             groups = [g for g in groups if not g[0].startswith(bytes.fromhex("aa55c07f010200"))]   # the answered probe
-            if not groups:
+            if not groups and self.family != "ES":   # ES device info is the (answered) discovery command itself
                 fail("discover did not continue with the detected family")
         for d, times in groups:
             # the same probe may be issued again by a later detection round (discover falls back to probing every
